@@ -471,7 +471,7 @@ func allTypesKV(withScalars, withArrays bool) []kvSpec {
 func stdTensors() []tensorSpec {
 	return []tensorSpec{
 		{Name: "blk.0.attn_q.weight", Dims: []uint64{4, 2}, Kind: 0, Bytes: 32}, // F32 4x2
-		{Name: "output.weight", Dims: []uint64{5}, Kind: 24, Bytes: 5},           // I8
+		{Name: "output.weight", Dims: []uint64{5}, Kind: 24, Bytes: 5},          // I8
 	}
 }
 
